@@ -75,6 +75,25 @@ class _Child:
         n = self.n
         self.n += 1
         f = self.fault
+        if f is not None and f['kind'] in ('oserror-from', 'oserror-path'):
+            # persistent conditions: a disk that stays full / read-only from effect `at` on, or one path that stays
+            # locked / immutable.  Every matching effect fails, not just the first.
+            hit = False
+            if f['kind'] == 'oserror-from':
+                hit = n >= f.get('at', 0) and (f.get('errno') != 'ENOSPC' or kind in ('open', 'write', 'close', 'mkdir'))
+            else:
+                hit = f.get('path') in (info.get('path'), info.get('src'), info.get('dst'))
+            if hit:
+                self.fired = True
+                rec = dict(info)
+                rec.update({'fault': f['kind'], 'n': n, 'k': kind, 'errno': f.get('errno', 'EIO')})
+                self.log(rec)
+                code = getattr(errno_mod, f.get('errno', 'EIO'))
+                raise _oserror(code, info.get('path') or info.get('src'))
+            rec = dict(info)
+            rec.update({'n': n, 'k': kind})
+            self.log(rec)
+            return n
         if f is not None and f.get('at') == n and not self.fired:
             self.fired = True
             fk = f['kind']
